@@ -8,7 +8,7 @@ from .. import gen_source as G, ser
 from . import c01
 
 PROP = "C02"
-THEOREMS = ["C02_block_string", "C02_escapes", "C02_numbers_verbatim", "C02_shape_value",
+THEOREMS = ["C02_block_string", "C02_escapes", "C02_block_body", "C02_numbers_verbatim", "C02_shape_value",
             "C02_shape_type", "C02_no_location", "C02_spans_partial"]
 AXIOMS_OK = []
 RUN_MODULE = "Run.C02run Lang.Parser"
